@@ -272,8 +272,12 @@ func runConcWithFault(sc ConcScenario, hf *HandlerFault, prefix []int) (res *Con
 			if reg != nil {
 				owner = s.Who() // the thread that is connecting
 			}
+			adopted := false
 			c.Before = func(c *fakemc.Conn, f *fakemc.Frame) {
-				reg.adopt(owner)
+				if !adopted {
+					adopted = true // (helper goroutines of a handler fall back to "the thread released last")
+					reg.adopt(owner)
+				}
 				s.PointFor(owner, fmt.Sprintf("L%d:%s", tier, frameTag(f)), nil)
 			}
 		}
